@@ -146,6 +146,22 @@ def _interleave(per_kind):
 
 # ----------------------------------------------------------------------------- poisons
 
+def _repeats(frozen):
+    """Does a frozen attribute value contain two equal non-empty containers?"""
+    seen = set()
+
+    def walk(v):
+        if isinstance(v, tuple) and v and v[0] in ('list', 'dict') and len(v) > 1:
+            if v in seen:
+                return True
+            seen.add(v)
+            return any(walk(x) for x in v[1:])
+        if isinstance(v, tuple):
+            return any(walk(x) for x in v)
+        return False
+    return walk(frozen)
+
+
 def _is_model(x):
     return (isinstance(x, tuple) and len(x) == 2 and isinstance(x[0], tuple) and len(x[0]) == 6
             and isinstance(x[1], tuple))
@@ -244,6 +260,12 @@ class HistProp:
             if model_index(s) is not None:
                 for kind in POISON_KINDS:
                     yield ('XP', kind, s)
+        # the same final object graph reached by other construction orders (incremental add_child; attributes
+        # first, children appended to the relation's list, constraints appended after the model exists)
+        for s in sentinels:
+            if model_index(s) is not None:
+                for route in ('B', 'C', 'D'):
+                    yield ('XB', route, s)
         # constraints whose expression graph shares sub-expression objects, on the sentinel trees
         if getattr(self._mod, 'HIST_DAG', True):
             from .props import common as cm
@@ -256,6 +278,10 @@ class HistProp:
             for s in bases[:DAG_BASES[tier]]:
                 for t in cm.dag_trees():
                     yield ('XD', (s[0], cm.with_ctc((s[1][0], ()), t)))
+            # attribute values in which the same container object occurs twice
+            for s in sentinels:
+                if len(s) == 2 and _is_model(s[1]) and any(_repeats(av) for f in sh.features(s[1]) for (_an, av) in f[5]):
+                    yield ('XD', s)
 
     def plan(self, tier):
         p = dict(self._mod.plan(tier)) if hasattr(self._mod, 'plan') else {}
@@ -276,15 +302,26 @@ class HistProp:
         if case[0] == 'XP':
             before = self._before((case[2],))
             return isolated(lambda: self._run_hp(case, before))
+        if case[0] == 'XB':
+            from . import build as bd
+            from .engine import Fail
+            base = self._before((case[2],))[0]        # what the ordinary route gives (known findings included)
+            bd.ROUTE['default'] = case[1]
+            try:
+                fails = self._mod.check(case[2])
+            finally:
+                bd.ROUTE['default'] = 'A'
+            return [Fail('construction-route-%s:%s' % (case[1], f.clause), f.detail) for f in fails if f.clause not in base]
         if case[0] == 'XD':
             from . import build as bd
             from .engine import Fail
+            base = self._before((case[1],))[0]        # the same expression built as a tree
             bd.SHARE['on'] = True
             try:
                 fails = self._mod.check(case[1])
             finally:
                 bd.SHARE['on'] = False
-            return [Fail('shared-subexpressions:' + f.clause, f.detail) for f in fails]
+            return [Fail('shared-subexpressions:' + f.clause, f.detail) for f in fails if f.clause not in base]
         return self._mod.check(case)
 
     def _before(self, sentinels):
@@ -371,6 +408,8 @@ class HistProp:
             return 'XP:%s of %s' % (case[1], self._mod.describe(case[2]))
         if case[0] == 'XD':
             return 'XD:%s' % self._mod.describe(case[1])
+        if case[0] == 'XB':
+            return 'XB:route %s of %s' % (case[1], self._mod.describe(case[2]))
         return self._mod.describe(case)
 
     def reduce(self, case):
@@ -401,6 +440,13 @@ class HistProp:
                 for r in red(case[1]):
                     yield ('XD', r)
             return
+        if case[0] == 'XB':
+            red = getattr(self._mod, 'reduce', None)
+            if red is not None:
+                for r in red(case[2]):
+                    if model_index(r) is not None:
+                        yield ('XB', case[1], r)
+            return
         red = getattr(self._mod, 'reduce', None)
         if red is not None:
             yield from red(case)
@@ -413,16 +459,18 @@ class HistProp:
             return ('XP', case[1], norm(case[2])) if norm is not None else case
         if case[0] == 'XD':
             return ('XD', norm(case[1])) if norm is not None else case
+        if case[0] == 'XB':
+            return ('XB', case[1], norm(case[2])) if norm is not None else case
         return norm(case) if norm is not None else case
 
     def nontrivial(self, case):
-        if case[0] in ('XH', 'XP', 'XD'):
+        if case[0] in ('XH', 'XP', 'XD', 'XB'):
             return True
         nt = getattr(self._mod, 'nontrivial', None)
         return True if nt is None else nt(case)
 
     def outcome(self, case):
-        if case[0] in ('XH', 'XP', 'XD'):
+        if case[0] in ('XH', 'XP', 'XD', 'XB'):
             return 'history'
         oc = getattr(self._mod, 'outcome', None)
         return 'n/a' if oc is None else oc(case)
